@@ -365,6 +365,7 @@ CHECKS = {
             {"name": "login", "test": "TestLoginLogs", "quick": 500, "thorough": 6000, "shards": 16},
             {"name": "escalation", "test": "TestEscalationLogs", "quick": 400, "thorough": 4000, "shards": 8},
             {"name": "onopen", "test": "TestOnOpenLogs", "quick": 300, "thorough": 3000, "shards": 4},
+            {"name": "transports", "test": "TestTransportLogs", "quick": 120, "thorough": 800, "shards": 8},
         ],
     },
     "C05": {
